@@ -36,7 +36,7 @@ LEVEL_NOTE = ('trusted base: vf/exactq.py predicate and exact comparison; values
 TECHNIQUE = 'runtime invariant monitor: store hooks + sys.monitoring return taps, predicate oracle, equal-value twin oracle'
 
 N_SHARDS = 16
-CASES = {'quick': 6000, 'thorough': 24000}
+CASES = {'quick': 6000, 'thorough': 16000}
 CALL_CAP = {'quick': 1.0, 'thorough': 3.0}
 SHARD_CPU_BUDGET = {'quick': 100, 'thorough': 900}       # CPU seconds per shard; normal use is ~35 / ~150
 SECTIONS = ['ops', 'conv', 'funcs', 'iv', 'sum', 'pickle', 'matrix', 'carry', 'far', 'mulint', 'twin', 'funcs', 'ops',
